@@ -127,6 +127,10 @@ class Ast:
         return '::'.join(reversed(parts))
 
     def in_template_pattern(self, n):
+        # an implicit instantiation of a function template hangs below the FunctionTemplateDecl and carries its TemplateArguments
+        p0 = self.parent.get(n.get('id'))
+        if p0 is not None and p0.get('kind') == 'FunctionTemplateDecl' and any(isinstance(c, dict) and c.get('kind') == 'TemplateArgument' for c in n.get('inner', [])):
+            n = p0
         cur = self.ctx_parent(n)
         while cur is not None:
             k = cur.get('kind')
